@@ -443,6 +443,8 @@ def step_harnesses(tier, seed, pid):
         combos = [D + ('default', False, False, 'one', None)]
         if pid in ('C03', 'C04', 'C10'):
             combos.append(D + ('soft-restarts', False, False, 'one', None))
+        if pid == 'C04':
+            combos.append(D + ('regression-geom', False, False, 'one', None))
         if pid == 'C18':
             combos.append(D + ('diagnostics', False, False, 'one', None))
         if pid == 'C02':
